@@ -94,6 +94,13 @@ func MutateForSearchSorter(queryAgg *structs.QueryAggregators) *structs.SortExpr
 			sorterAgg = curAgg
 			break
 		}
+		if curAgg.HasStatsBlock() || curAgg.StatisticExpr != nil || curAgg.TimechartExpr != nil {
+			// The sort applies to the rows this aggregation produces (stats,
+			// top/rare, timechart), not to the searched records, so the
+			// searcher cannot take it over even when the sort column has the
+			// name of an ingested column (e.g. the group-by column).
+			return nil
+		}
 		prevAgg = curAgg
 	}
 
